@@ -427,7 +427,9 @@ def run_dm(case, seed, R):
     if dm is FAILED:
         return
     Nint = int(N * up)
-    feats = [t for t, on in (('upsample!=1', up != 1), ('N-odd', N % 2 == 1), ('shift', any(shift)), ('crop', Nout < Nint), ('pad', Nout > Nint),
+    frac = N * up - int(N * up)
+    upc = 'upsample:int-product' if frac == 0 else 'upsample:frac<.5' if frac < 0.5 else 'upsample:frac>=.5'
+    feats = [t for t, on in ((upc, up != 1), ('N-odd', N % 2 == 1), ('shift', any(shift)), ('crop', Nout < Nint), ('pad', Nout > Nint),
                              ('per-axis-Nact', isinstance(Nact, list))) if on]
     feats = '+'.join(feats) if feats else 'base'
     try:
@@ -600,6 +602,20 @@ def units(tier, seed):
                         for Nout in (Nint - 3 if Nint >= 6 else Nint - 1, Nint, Nint + 3):
                             for wfe in (True, False):
                                 dm_cases.append({'N': N, 'Nact': Nact, 'sep': sep, 'shift': shift, 'Nout': Nout, 'upsample': up, 'wfe': wfe})
+    # fractional resampling: N*upsample non-integer on both sides of .5 (int() vs round() of the resampled size), a float artefact just below an integer,
+    # lattices reaching the array edge; Nout one sample and three samples above / three below / equal to the resampled size int(N*upsample)
+    frac_fam = [(10, 1.25, 4, 2), (10, 1.28, 4, 2), (10, 1.22, 4, 2), (10, 1.28, 2, 3), (12, 0.79, 4, 3), (12, 0.8, 4, 3), (12, 0.8, 3, 2), (9, 1.3, 4, 2), (9, 1.3, 2, 2),
+                (13, 0.5, 4, 3), (11, 1.5, 4, 2)]
+    if not quick:
+        frac_fam += [(16, 1.2, 6, 2), (16, 1.1, 6, 2), (15, 0.9, 4, 3), (14, 0.75, 6, 2), (53, 1.2, 8, 6), (50, 0.75, 8, 6)]
+    for (N, up, Nact, sep) in frac_fam:
+        Nint = int(N * up)
+        for shift in ([0, 0], [0.5, -1.25]):
+            for Nout in (Nint - 3, Nint, Nint + 1, Nint + 3):
+                for wfe in (True, False):
+                    dm_cases.append({'N': N, 'Nact': Nact, 'sep': sep, 'shift': shift, 'Nout': Nout, 'upsample': up, 'wfe': wfe})
+    for Nout in (28, 29, 33):      # 100 * 0.29 = 28.999999999999996
+        dm_cases.append({'N': 100, 'Nact': 8, 'sep': 12, 'shift': [0.5, -1.25], 'Nout': Nout, 'upsample': 0.29, 'wfe': True})
     # --- size thresholds
     big_shapes = [[63, 63], [64, 64], [65, 65], [64, 65], [65, 64], [65, 67], [101, 64], [66, 64], [127, 127], [128, 128], [129, 129], [128, 129], [129, 131]]
     if not quick:
@@ -646,6 +662,8 @@ def units(tier, seed):
                   'unshifted, companion output == textbook adjoint sum Ay^H y conj(Ax) of mc/ref_dft; tolerance 200 eps n^1.5', reset=rs),
         ScopeUnit('lin_dm', dm_cases, run_dm,
                   f'N in {sorted({c["N"] for c in dm_cases})} x Nact in {{2, 3, (3,2)}} x sep in {{2, 3, (3,2)}} x shift in {{0, (0.5,-1.25)}} x upsample in {{1, 2, 0.5}} x Nout in {{<, =, >}} the resampled size (parity-changing) x wfe in {{True, False}}; '
+                  f'plus the fractional-resampling family (N, upsample, Nact, sep) in {frac_fam} and (100, 0.29, 8, 12) [N*upsample non-integer on both sides of .5, exactly .5, a float artefact just below an integer; lattices reaching the array edge] '
+                  'x shift x Nout in {{int(N*upsample)-3, =, +1, +3}} x wfe; render must return the documented Nout x Nout array; '
                   'skewed-Gaussian influence function; DM.render as a map actuators -> surface (full actuator basis) against DM.render_backprop on the full basis of upstream gradients, B = A^T entry-wise. '
                   'ROTATION IS EXCLUDED from the exactness claim (rot = 0 throughout): an inverse warp is only an approximate adjoint of spline interpolation and the property quantifies over shift/pad/crop/resample. '
                   'Configurations whose lattice, as prysm places it, does not fit in the array are executed up to construction and counted as trivial', reset=rs),
